@@ -6,11 +6,13 @@ import (
 	"bufio"
 	"bytes"
 	"encoding/json"
+	stderrors "errors"
 	"fmt"
 	"os"
 	"path/filepath"
 	"sort"
 
+	"github.com/go-openapi/errors"
 	"github.com/go-openapi/loads"
 	"github.com/go-openapi/spec"
 	"github.com/go-openapi/strfmt"
@@ -23,6 +25,7 @@ type specCase struct {
 	File    string          `json:"file,omitempty"` // or a fixture path relative to /repo (JSON or YAML)
 	Repeats int             `json:"repeats,omitempty"`
 	Loose   bool            `json:"loose,omitempty"` // also run with StrictPathParamUniqueness off
+	Defaults bool           `json:"defaults,omitempty"` // also run through the package-level defaults
 	Origin  string          `json:"origin,omitempty"`
 	Edits   []string        `json:"edits,omitempty"`
 }
@@ -73,6 +76,32 @@ func runSpec(c *specCase, cont, strict bool) (r specRun) {
 	v.Options.StrictPathParamUniqueness = strict
 	errs, warns := v.Validate(doc)
 	return specRun{Outcome: "ok", Valid: errs.IsValid(), Errors: texts(errs.Errors), Warnings: texts(warns.Errors), ErrWarns: texts(errs.Warnings)}
+}
+
+// runSpecDefaults: validate.SetContinueOnErrors(cont) then validate.Spec, whose validator copies the package defaults
+func runSpecDefaults(c *specCase, cont bool) (r specRun) {
+	defer func() {
+		if x := recover(); x != nil {
+			r = specRun{Outcome: "panic", Panic: panicClass(x) + ": " + fmt.Sprint(x), Stack: shortStack(), Errors: []string{}, Warnings: []string{}, ErrWarns: []string{}}
+			validate.VerifReset(validate.VerifOff, false)
+		}
+	}()
+	doc, err := loadDoc(c)
+	if err != nil {
+		return specRun{Outcome: "unloadable", Panic: err.Error(), Errors: []string{}, Warnings: []string{}, ErrWarns: []string{}}
+	}
+	validate.SetContinueOnErrors(cont)
+	r = specRun{Outcome: "ok", Valid: true, Errors: []string{}, Warnings: []string{}, ErrWarns: []string{}}
+	if e := validate.Spec(doc, strfmt.Default); e != nil {
+		r.Valid = false
+		var ce *errors.CompositeError
+		if stderrors.As(e, &ce) {
+			r.Errors = texts(ce.Errors)
+		} else {
+			r.Errors = []string{e.Error()}
+		}
+	}
+	return r
 }
 
 // firstPass: the Swagger 2.0 schema run directly over the raw document, as spec.go:118-120 does
@@ -177,6 +206,16 @@ func specRunAll(in *bufio.Scanner, out *bufio.Writer) {
 			}
 		}
 		rec["repeats"] = reps
+		// through the package-level defaults: the global switch is set, then the one-shot entry point is used, which
+		// builds its validator from the defaults (false, true, false again: the history must not matter)
+		if c.Defaults {
+			var dl []specRun
+			for _, cont := range []bool{false, true, false} {
+				dl = append(dl, runSpecDefaults(&c, cont))
+			}
+			validate.SetContinueOnErrors(false)
+			rec["defaults"] = dl
+		}
 		// first pass alone and its model input (the Swagger 2.0 schema over the raw document)
 		fp, raw := firstPass(&c)
 		rec["first_pass"] = fp
